@@ -4,7 +4,7 @@
 EXTENDS Integers, Sequences, TLC, Json
 CONSTANTS Sizes
 VARIABLE c
-QSizes == {<<0,0>>, <<0,3>>, <<3,0>>, <<1,1>>, <<2,3>>, <<5,2>>, <<4,4>>, <<1,256>>, <<256,1>>, <<17,9>>}
+QSizes == {<<0,0>>, <<0,3>>, <<3,0>>, <<1,1>>, <<2,3>>, <<5,2>>, <<4,4>>, <<1,256>>, <<256,1>>, <<17,9>>, <<64,64>>, <<129,33>>, <<200,64>>, <<63,64>>}
 TSizes == QSizes \cup {<<256,256>>, <<100,37>>, <<64,64>>, <<255,2>>, <<2,255>>, <<31,33>>, <<0,256>>, <<256,0>>}
 SeedClasses == {"0", "1", "42", "18446744073709551614", "18446744073709551615", "123456789012345"}
 Init == c = [n |-> -1]
